@@ -60,7 +60,8 @@ def _next_fresh():
 
 
 class PathCtx:
-    def __init__(self, prefix, base, stats, timeout_ms, concretize_limit=64):
+    def __init__(self, prefix, base, stats, timeout_ms, concretize_limit=64, deadline=None):
+        self.deadline = deadline
         self.prefix = prefix
         self.taken = []          # decisions made, in order (True/False or ints for concretize)
         self.alternatives = []   # decision prefixes still to explore
@@ -100,6 +101,10 @@ class PathCtx:
 
     # -- decisions ----------------------------------------------------------
     def branch(self, cond) -> bool:
+        if self.deadline is not None and time.time() > self.deadline:
+            raise Budget("exploration deadline exceeded inside a path (non-terminating loop?)")
+        if len(self.taken) > 200000:
+            raise Budget("more than 200000 decisions on one path")
         i = len(self.taken)
         if i < len(self.prefix):
             choice = self.prefix[i]
@@ -233,7 +238,7 @@ def explore(thunk, base=(), stats=None, timeout_ms=10000, max_paths=20000, concr
         if deadline is not None and time.time() > deadline:
             raise Budget("exploration deadline exceeded")
         prefix = work.pop()
-        c = PathCtx(prefix, list(base), stats, timeout_ms, concretize_limit)
+        c = PathCtx(prefix, list(base), stats, timeout_ms, concretize_limit, deadline)
         old = sym.set_ctx(c)
         try:
             try:
